@@ -1,6 +1,8 @@
 package main
 
 import (
+	"crypto/sha256"
+	"encoding/hex"
 	"math/big"
 	"fmt"
 	"go/token"
@@ -1004,6 +1006,13 @@ func (p *Prog) Effects(fn *ssa.Function) []*Effect {
 				e.File, e.Line = p.Pos(x.Pos())
 				out = append(out, e)
 			}
+		}
+	}
+	for _, e := range out {
+		if len(e.Canon) > 1200 {
+			// very long forms (embedded JSON/ABI literals): a prefix and a digest identify them
+			sum := sha256.Sum256([]byte(e.Canon))
+			e.Canon = e.Canon[:300] + "…[sha256:" + hex.EncodeToString(sum[:8]) + "]"
 		}
 	}
 	return out
